@@ -13,6 +13,8 @@ pub mod c06;
 pub mod c11;
 pub mod c12;
 pub mod c13;
+pub mod c18;
+pub mod c20;
 
 pub fn registry() -> Vec<&'static macros::Entry> {
     let mut v = Vec::new();
@@ -23,5 +25,7 @@ pub fn registry() -> Vec<&'static macros::Entry> {
     v.extend(c11::registry());
     v.extend(c12::registry());
     v.extend(c13::registry());
+    v.extend(c18::registry());
+    v.extend(c20::registry());
     v
 }
